@@ -173,11 +173,11 @@ CHECKS['C08'] = dict(
     title='Operations across different grids are refused, never computed',
     level='exploration',
     technique='bounded-exhaustive enumeration of (entry point x way the grids differ x window placement on both sides) on the real code; oracle = exception type and code, argument snapshots, and equality with the shared-instance result for equal grids in distinct objects',
-    level_text='25 entry points (binary operators and in-place forms, linearCombination with the odd grid at every position and with zero coefficients on the odd-grid spline, on the others and on all, bilinear forms plain and with spline factor, linear form and operator application with spline factor, integrate<3>, generator with supplied grid) x every perturbation of a 4-point (thorough 5-point) grid (each point moved, extra point at front/back/inside every gap, every proper prefix and suffix, equal copy) x every window on both sides, including windows that agree exactly where the supports meet and interval-free arguments.',
+    level_text='25 entry points (binary operators and in-place forms, linearCombination with the odd grid at every position and with zero coefficients on the odd-grid spline, on the others and on all, bilinear forms plain and with spline factor, linear form and operator application with spline factor, integrate<3>, generator with supplied grid) x every perturbation of a 5-point and of a 4-point grid (odd and even sizes) (each point moved, extra point at front/back/inside every gap, every proper prefix and suffix, equal copy) x every window on both sides, including windows that agree exactly where the supports meet and interval-free arguments.',
     level_note='Trusted: the expected-outcome rule written in checks/c08_grids.cpp from the statement. For spline factors a throw is required only if the operand has an interval (DESIGN.md 5). integrate<n> is exercised in double (boost quadrature), judged on refusal and on equality with the shared-instance result only.',
     units=std_units('checks/c08_grids.cpp'),
     rule='cases = (order pair, grid variant, entry point, window on G, window on G\'). Non-trivial = grids differ logically and a refusal is required.',
-    bounds=dict(quick='4-point base grid, order pairs (1,1),(1,0)', thorough='5-point base grid, 7 order pairs from {0,1,2}^2'),
+    bounds=dict(quick='5-point base grid for orders (1,1), 4-point base grid for (1,0)', thorough='both base grids, 8 order pairs from {0,1,2}^2'),
     guards=dict(classes=['equal-grids:computed', 'different:must-refuse:both-intervals', 'different:must-refuse:interval-free-arg', 'different:either:value',
                          'different:must-refuse:integrate', 'generator:accepted', 'generator:refused']),
     assumptions=[A_SHAPE],
